@@ -163,20 +163,21 @@ def run(ctx):
         # nothing touches the buffer afterwards (a trailing pop/truncate/append would leave a malformed or non-final item)
         ad = F.fn("ctap2::AuthenticatorData::<'a, A, E>::serialize")
         if ctx.oblige("C03|authdata|anchor", ad is not None, "anchor missing: AuthenticatorData::serialize", cfg=cfg, nontrivial=False):
-            from .appendchain import Chain
-            outs = [st for st in ad["body"].get("stmts", []) if st["k"] == "let" and st["pat"].get("k") == "bind" and (st["pat"].get("ty") or "").startswith("heapless_bytes::Bytes<")]
-            if ctx.oblige("C03|authdata|buffer", len(outs) == 1, "output buffer of AuthenticatorData::serialize not found", cfg=cfg, nontrivial=False):
-                ch = Chain(ad, outs[0]["pat"]["id"])
+            from .chain2 import Chain2
+            ch = Chain2(F, ad, buf=None)
+            if ctx.oblige("C03|authdata|buffer", len(ch.buffers()) == 1 and not ch.error, "output buffer of AuthenticatorData::serialize not found", cfg=cfg, nontrivial=False):
+                CBOR_TO = ("cbor_smol::cbor_serialize_to", "cbor_smol::ser::cbor_serialize_to")
                 n_ext = 0
                 for pth in ch.success_paths():
-                    ext = [e for e in pth.effects if e.get("callee") in ("cbor_smol::cbor_serialize_to", "cbor_smol::ser::cbor_serialize_to")]
-                    touched = [e for e in pth.effects]
+                    segs = ch.segments(pth)
+                    ext = [x for x in segs if x.kind == "delegate" and x.callee in CBOR_TO]
                     if not ext:
                         continue
                     n_ext += 1
-                    ctx.oblige("C03|authdata|extension-map-last", len(ext) == 1 and touched[-1] is ext[0],
+                    after = segs[segs.index(ext[0]) + 1:] if len(ext) == 1 else []
+                    ctx.oblige("C03|authdata|extension-map-last", len(ext) == 1 and segs[-1] is ext[0],
                                "after the extension map has been appended the buffer is modified again (%s): the embedded map is no longer one complete trailing item" %
-                               [ch.A.desc(e)[:60] for e in touched[touched.index(ext[0]) + 1:]] if len(ext) == 1 else "the extension map is appended %d times" % len(ext), cfg=cfg, where=ad["sp"])
+                               [x.show()[:60] for x in after] if len(ext) == 1 else "the extension map is appended %d times" % len(ext), cfg=cfg, where=ad["sp"])
                 ctx.oblige("C03|authdata|extension-paths", n_ext >= 1, "no path appends the extension map with cbor_serialize_to", cfg=cfg)
         # type closure
         roots = []
